@@ -10,10 +10,11 @@ CONSTANT Depth     \* max tokens of the base pointer
 VARIABLES base, rel, phase, cur
 vars == <<base, rel, phase, cur>>
 
-BaseTokens == {<<97>>, <<48>>, <<50>>, <<49, 48>>, <<233>>, <<126>>, <<37, 52, 49>>, <<45, 48>>}     \* a 0 2 10 e-acute ~ %41 (three ordinary characters) -0 (a name, not the index 0)
+BaseTokens == {<<97>>, <<48>>, <<50>>, <<49, 48>>, <<233>>, <<126>>, <<37, 52, 49>>, <<45, 48>>, <<>>}     \* a 0 2 10 e-acute ~ %41 (three ordinary characters) -0 (a name, not the index 0) and the empty token (the member named "")
 Offsets == {0, 1, -1, 2, -2, 10, -10, 12, -12}
 \* (a token with a line feed; a token that reads as an escape sequence - only used with escape decoding off, where it is six ordinary characters)
-SuffixSet == {<<>>, <<<<97>>>>, <<<<126>>>>, <<<<233>>, <<48>>>>, <<<<97, 47, 98>>, <<>>>>, <<<<128512>>>>, <<<<97, 10, 98>>, <<99>>>>, <<<<92, 117, 48, 48, 52, 49>>>>}
+SuffixSet == {<<>>, <<<<97>>>>, <<<<126>>>>, <<<<233>>, <<48>>>>, <<<<97, 47, 98>>, <<>>>>, <<<<128512>>>>, <<<<97, 10, 98>>, <<99>>>>, <<<<92, 117, 48, 48, 52, 49>>>>,
+              <<<<>>, <<121>>>>, <<<<37, 52, 49>>>>}        \* "//y": a suffix that begins with the empty token; "/%41": three ordinary characters
 
 Init == /\ base \in SeqsUpTo(BaseTokens, Depth)
         /\ \E s \in 0..(Depth + 1), o \in Offsets, key \in BOOLEAN, sfx \in SuffixSet :
